@@ -204,3 +204,32 @@ Theorem meta_tile_georef_partial :
     nth_error pats k = Some (Some (tx, ty, tl), (ox, oy)) ->
     tl = l /\ fst (ul_offset_ground mb (tile_bbox (mg m) tx ty tl)) = (ox * res_at (mg m) l)%Z.
 Proof. exact meta_tile_georef_x. Qed.
+
+(* GetFeatureInfo position across versions: whatever the version of the client request and of the upstream request
+   (X/Y or I/J) and whatever the axis order of the CRS, the pixel position sent upstream is the (column, row) the
+   client sent, while the BBOX next to it denotes the same rectangle: the forwarded request names the same pixel. *)
+Theorem featureinfo_position_version_independent :
+  forall (cv uv : wms_version) (ne : bool) (wire_bbox : Q * Q * Q * Q) (pos : Z * Z),
+    info_pos_to_version uv ne (info_pos_to_111 cv ne pos) = pos /\
+    info_pos_to_111 cv ne pos = pos /\
+    wire_rectangle uv ne (adapt_to_version uv ne (adapt_to_111 cv ne wire_bbox)) = wire_rectangle cv ne wire_bbox.
+Proof. exact info_pos_roundtrip. Qed.
+
+(* Rescaled tiles (downscale_tiles / upscale_tiles, TileManager._scaled_tile): the list of source tiles handed to
+   the mosaic has one entry per cell - a source tile that is missing (outside the grid, or neither cached nor
+   creatable) keeps its cell as None - so every present source tile is pasted exactly where its own bbox lies inside
+   src_bbox, whatever subset of the source tiles is available. *)
+Theorem scaled_tile_georef :
+  forall g avail b sl ab nx ny ts,
+    wf g -> valid_level g sl = true ->
+    scaled_tile_sources g avail b sl = Affected ab nx ny ts ->
+    Z.of_nat (length ts) = (nx * ny)%Z /\
+    bbox_w ab = (fst (src_size nx ny (tw g) (th g)) * res_at g sl)%Z /\
+    bbox_h ab = (snd (src_size nx ny (tw g) (th g)) * res_at g sl)%Z /\
+    forall i x y l',
+      nth_error ts i = Some (Some (x, y, l')) ->
+      l' = sl /\ avail (x, y, l') = true /\
+      ul_offset_ground ab (tile_bbox g x y sl) =
+        ((fst (tile_offset nx (tw g) (th g) (Z.of_nat i)) * res_at g sl)%Z,
+         (snd (tile_offset nx (tw g) (th g) (Z.of_nat i)) * res_at g sl)%Z).
+Proof. exact Geo_proofs.scaled_tile_georef. Qed.
